@@ -617,6 +617,9 @@ func (e *Env) CheckForged(m *Msg, out [4]bool, rp Replay) {
 	if ra != coded {
 		rep.Bump("note:real-vs-coded-model:" + rp.Forgery.T + ":" + rp.Enc)
 	}
+	if ra != design {
+		rep.Bump("note:real-vs-design-model:" + rp.Forgery.T + ":" + rp.Enc)
+	}
 	if ra && !design {
 		kind := "corrupted-proof-accepted"
 		if !truth {
